@@ -52,6 +52,8 @@ NONREF = [
     ("select '$5 off' as c", "$5 off"),
     ("select $$a $A b$$ as c", "a $A b"),
     ("select 'it''s $a1' as c", "it's $a1"),
+    ("select 'it\\'s $a1 and $A' as c", "it's $a1 and $A"),  # backslash-escaped quote: the literal does not end there
+    ("select 'don\\'t' as c, 'x $A' as d", None),  # two literals, the first with an escaped quote (both verbatim)
 ]
 
 
@@ -184,7 +186,11 @@ def battery(conns, m, acc, rp, opid):
     for sql, want in NONREF:
         got = run_one(cur, sql)
         obs.append(got)
-        if got != ("ok", [(want,)]):
+        if want is None:
+            ok = got == ("ok", [("don't", "x $A")])
+        else:
+            ok = got == ("ok", [(want,)])
+        if not ok:
             defs = sorted(d)
             inner = sql[sql.index("$") + 1 :].split()[0].strip("'").upper() if "$" in sql else ""
             cls = f"text={'dollar_quoted' if '$$' in sql else 'literal'},names_defined={'yes' if any(inner.startswith(x) for x in defs) else 'no'}"
